@@ -122,13 +122,53 @@ def tie_clock(seed, tier):
     st1["info"] = dict(info)
     st1["self_check_failures"] = len(selfbad)
     st2, d2 = _cmp("calendar", "date set-up of the same runs", cal_pairs, cal_used)
-    # stub engine fuzz
-    spairs = []
-    eng = L.StubEngine() if hasattr(L, "StubEngine") else None
-    st3, d3 = None, []
-    if eng is not None and hasattr(L, "stub_fuzz_pairs"):
-        spairs = L.stub_fuzz_pairs(rng, nstub)
-        st3, d3 = _cmp("clock", "stub-engine fuzz of the real control code", spairs)
+    # stub-engine fuzz: the real control code with stubbed biophysics, arbitrary configurations
+    spairs, comp_bad, ncomp = [], 0, 0
+    with L.StubEngine() as eng:
+        for i in range(nstub):
+            cfg, oracle = L.rand_cfg(rng)
+            mode = i % 4
+            if mode in (0, 1):
+                o = eng.run(cfg, oracle)
+            elif mode == 2:
+                o = eng.run(cfg, oracle, L.rand_calls(rng, cfg["n"]))
+            else:
+                ks = L.rand_calls(rng, cfg["n"])
+                if rng.random() < 0.1:
+                    ks[int(rng.integers(len(ks)))] = 0
+                o = eng.run(cfg, oracle, ks, stop_when_finished=False)
+            if o.raw_error is not None and o.error is None:
+                continue
+            spairs.append(L.encode_obs(o))
+        # every composition of short runs into run_model(num_steps=k) calls (C09)
+        for j in range(3 if tier == "quick" else 12):
+            cfg, oracle = L.rand_cfg(rng, valid=True)
+            cfg["n"] = min(cfg["n"], int(rng.integers(3, 10)))
+            cfg["planting"] = [p for p in cfg["planting"] if p + 2 <= cfg["n"]] or [0]
+            cfg["harvest"] = cfg["harvest"][:len(cfg["planting"])] or [3]
+            cfg["season0"] = 0 if cfg["planting"][0] == 0 else -1
+            ref = eng.run(cfg, oracle)
+            K = len(ref.sol)
+            ref_exp = L.encode_obs(ref)[1]
+            for mask in range(1 << max(0, K - 1)):
+                ks, run = [], 1
+                for b in range(K - 1):
+                    if mask >> b & 1:
+                        ks.append(run); run = 1
+                    else:
+                        run += 1
+                ks.append(run)
+                o = eng.run(cfg, oracle, ks)
+                line, exp = L.encode_obs(o)
+                spairs.append((line, exp))
+                ncomp += 1
+                if exp != ref_exp or o.calls != ks:
+                    comp_bad += 1
+    st3, d3 = _cmp("clock", "stub-engine fuzz of the real control code (incl. all compositions of short runs)", spairs)
+    st3["all_compositions"] = ncomp
+    st3["compositions_differing_from_uninterrupted_run"] = comp_bad
+    if comp_bad:
+        d3.append(dict(process="clock", source="all-compositions", detail=f"{comp_bad} of {ncomp} call sequences differ from the uninterrupted run"))
     stats = [st1, st2] + ([st3] if st3 else [])
     if selfbad:
         d1.append(dict(process="clock", source="self-check", detail=str(selfbad[:2])))
